@@ -15,13 +15,13 @@ CONSTANTS
  Tries = 2
  NextHop = 4 Unstable = 24 CacheTO = 4 Inactive = 8 RemoveDelay = 2 SweepEvery = 2 PingEvery = 3 MaxTime = 1000
  CreateGuard = TRUE
- MaxCircuits = 1 MaxData = 0 MaxLoss = 0 MaxDup = 0 MaxAdv = 1 MaxNow = 4
- Goals = {1}
+ MaxCircuits = 2 MaxData = 2 MaxLoss = 0 MaxDup = 0 MaxAdv = 2 MaxNow = 0
+ Goals = {1, 2}
  Origins = {o}
- AdvKinds = {"mangle"}
+ AdvKinds = {"tamper", "splice", "inject", "header", "plain"}
  NodeRank <- RankDef
  AdvSrcs = {adv}
- TrackWire = FALSE
+ TrackWire = TRUE
  UseIds = FALSE
  NodeTeardown = FALSE
  MayVanish = FALSE
@@ -32,14 +32,12 @@ CONSTANTS
  CheckIdent = TRUE
  RelayOnce = TRUE
  CandsGuard = TRUE
- DataGuard = TRUE
+ DataGuard = FALSE
  SuspendJoin = FALSE
  JoinCacheFirst = TRUE
  AutoTimers = TRUE
 INVARIANT TypeOK
-INVARIANT PathAgreement
-INVARIANT NoForeignKey
-INVARIANT KeyAgreement
-PROPERTY AnswerMustMatch
-PROPERTY HopByRightAnswer
-PROPERTY EntriesStable
+INVARIANT ExitIntegrity
+INVARIANT ReturnIntegrity
+INVARIANT LayerDepth
+INVARIANT NoRepeatOnLinks
